@@ -1158,8 +1158,8 @@ static void finalize_relay(const Plan &plan, EndReason r) {
     finalize(plan, r);
 }
 
-static struct Reg {
-    Reg() {
+static struct Reg_conv {
+    Reg_conv() {
         register_family(Family{"relay", gen_relay, setup_relay, finalize_relay, nullptr, nullptr});
         register_family(Family{"conv", gen, setup, finalize, nullptr, nullptr});
         register_family(Family{"term", gen_term, setup_term, finalize_term, nullptr, term_variants});
